@@ -84,4 +84,42 @@ theorem C13_different_objects_never_refused (ids : Nat → Nat) (hinj : ∀ i j,
     (sched : List Nat) : ∀ k, ((run (init ids) sched).procs k).phase ≠ .refused :=
   never_refused_aux ids hinj sched (init ids) (inv_init ids) (fun _ => rfl) (by intro k; simp [init])
 
+/-! ### serialisability (model with object states: a locked operation reads the object once it holds
+    the lock and writes the result of its body before it releases the lock) -/
+
+/-- **every concurrent run equals a serial one**: whatever the schedule, any number of processes, any
+    assignment of processes to objects and any bodies — the final state of every object is the one
+    obtained by running, one after the other in the order in which they completed, exactly the
+    operations on that object that completed -/
+theorem C13_serializable (ids : Nat → Nat) (fs : Nat → Nat → Nat) (store0 : Nat → Nat) (sched : List Nat) (o : Nat) :
+    (runS fs (initS ids store0) sched).store o =
+      serial ids fs store0 (runS fs (initS ids store0) sched).log o :=
+  (runS_inv ids fs store0 sched).store_ok o
+
+/-- the serial order consists of exactly the operations that reported completion: a refused one (lock
+    error) is not in it, an operation still running is not in it yet -/
+theorem C13_serial_order_is_the_successful (ids : Nat → Nat) (fs : Nat → Nat → Nat) (store0 : Nat → Nat)
+    (sched : List Nat) (i : Nat) :
+    i ∈ (runS fs (initS ids store0) sched).log ↔ ((runS fs (initS ids store0) sched).procs i).phase = .done :=
+  (runS_inv ids fs store0 sched).log_ok i
+
+/-- an operation on another object never changes this object: objects nobody completed an operation
+    on keep their initial state -/
+theorem C13_untouched_object_keeps_state (ids : Nat → Nat) (fs : Nat → Nat → Nat) (store0 : Nat → Nat)
+    (sched : List Nat) (o : Nat) (h : ∀ i ∈ (runS fs (initS ids store0) sched).log, ids i ≠ o) :
+    (runS fs (initS ids store0) sched).store o = store0 o := by
+  rw [C13_serializable]
+  unfold serial
+  have : (runS fs (initS ids store0) sched).log.filter (fun i => ids i = o) = [] := by
+    apply List.filter_eq_nil_iff.mpr
+    intro i hi
+    simpa using h i hi
+  rw [this]; rfl
+
+/-- non-vacuity: two processes on one object, interleaved so that the second is refused, then a retry
+    by a third succeeds: the object has seen the first and the third body, in that order -/
+example :
+    let s := runS (fun i st => st * 10 + i) (initS (fun _ => 7) (fun _ => 0)) [1, 2, 1, 3, 3]
+    s.store 7 = 13 ∧ s.log = [1, 3] ∧ (s.procs 2).phase = .refused := by decide
+
 end Rocfl.Theorems.C13
